@@ -114,16 +114,18 @@ def leO {D} (le : D → D → Bool) : Option D → D → Bool
   | none, _ => true
   | some a, b => le a b
 
-/-- candidate loop-head state: iterate `H := H ⊔ norm(body H) ⊔ brk(body H)` `fuel` times -/
-def loopHead {D} (j : D → D → D) (le : D → D → Bool) (f : D → Res D) : Nat → D → D
-  | 0, h => h
+/-- loop-head state: iterate `H := H ⊔ norm(body H) ⊔ brk(body H)` until it is a post-fixpoint
+(at most `fuel` times).  Returns the head, the analysis of the body at that head, and whether the
+head is stable (whatever an iteration ends in is below it). -/
+def loopFix {D} (j : D → D → D) (le : D → D → Bool) (f : D → Res D) : Nat → D → D × Res D × Bool
+  | 0, h => let r := f h; (h, r, leO le r.norm h && leO le r.brk h)
   | n + 1, h =>
     let r := f h
-    if leO le r.norm h && leO le r.brk h then h        -- already a post-fixpoint
+    if leO le r.norm h && leO le r.brk h then (h, r, true)
     else
       let h1 := match r.norm with | some d => j h d | none => h
       let h2 := match r.brk with | some d => j h1 d | none => h1
-      loopHead j le f n h2
+      loopFix j le f n h2
 
 def analyze {A D} (dom : Dom A D) : Prog A → D → Res D
   | .skip, d => { Res.bot with norm := some d }
@@ -141,11 +143,10 @@ def analyze {A D} (dom : Dom A D) : Prog A → D → Res D
     let r := Res.merge dom.join (analyze dom p (dom.assume c true d)) (analyze dom q (dom.assume c false d))
     { r with ok := r.ok && dom.check c d }
   | .loop b, d =>
-    let h := loopHead dom.join dom.le (analyze dom b) 8 d
-    let r := analyze dom b h
-    -- `h` must be a post-fixpoint: whatever an iteration ends in is below `h`
-    { ok := r.ok && dom.le d h && leO dom.le r.norm h && leO dom.le r.brk h,
-      norm := some h, exc := r.exc, ret := r.ret, brk := none }
+    let fx := loopFix dom.join dom.le (analyze dom b) 8 d
+    -- `fx.1` must be above the entry state and a post-fixpoint of the body
+    { ok := fx.2.1.ok && dom.le d fx.1 && fx.2.2,
+      norm := some fx.1, exc := fx.2.1.exc, ret := fx.2.1.ret, brk := none }
   | .tryFinally b f, d =>
     let rb := analyze dom b d
     let viaN := match rb.norm with | some x => analyze dom f x | none => Res.bot
